@@ -36,6 +36,18 @@ def acceptor_cases(ctx, rs):
         rs.shuffle(ml)
         rs.shuffle(cl)
         out.append({"kind": f"oriented{S}", "ml": ml, "cl": cl, "container": ml_.CONTAINERS[rs.randint(len(ml_.CONTAINERS))]})
+    # long must-link chains (components of diameter 2 … 24): a cannot-link pair between the two ENDS, or between any two nodes of the
+    # chain, contradicts it however long the path is; one between the chain and an outsider does not
+    for L in range(2, 17 if ctx.tier == "quick" else 25):
+        for rep in range(2 if ctx.tier == "quick" else 6):
+            nodes = [int(v) for v in rs.choice(np.arange(-40, 400), size=L + 2, replace=False)]
+            chain, outsider = nodes[:L + 1], nodes[L + 1]
+            ml = [(chain[i], chain[i + 1]) if rs.rand() < 0.5 else (chain[i + 1], chain[i]) for i in range(L)]
+            rs.shuffle(ml)
+            i, j = sorted(rs.choice(L + 1, size=2, replace=False))
+            for tag, cl in (("ends", [(chain[0], chain[L])]), ("ends-reversed", [(chain[L], chain[0])]),
+                            ("inner", [(chain[int(i)], chain[int(j)])]), ("outsider", [(chain[L], outsider), (outsider, chain[0])])):
+                out.append({"kind": f"chain{L}:{tag}", "ml": list(ml), "cl": cl, "container": ml_.CONTAINERS[rs.randint(len(ml_.CONTAINERS))]})
     nrand = 1200 if ctx.tier == "quick" else 15000
     for _ in range(nrand):
         name, ml, cl = ml_.gen_acceptor_case(rs)
